@@ -366,10 +366,10 @@ Theorem joined_inner_nested_loop : forall self other cs co prefix ks ko,
     rows t = spec_inner_join (hdr self) (rows self) (hdr other) (rows other) ks ko.
 Proof. intros. unfold joined. apply inner_join_nested_loop; assumption. Qed.
 
-(* the natural join keys are the shared names, in each table's own order *)
+(* the natural join keys are the shared names in self's order, on both sides *)
 Lemma join_keys_natural self other :
   join_keys self other None None =
-  Ok (filter (fun c => mem_str c (hdr other)) (hdr self), filter (fun c => mem_str c (hdr self)) (hdr other)).
+  Ok (filter (fun c => mem_str c (hdr other)) (hdr self), filter (fun c => mem_str c (hdr other)) (hdr self)).
 Proof. reflexivity. Qed.
 
 Lemma join_keys_explicit self other a b :
@@ -563,26 +563,29 @@ Proof.
       apply csv_cell_text_ok. rewrite forallb_forall in Hc. apply Hc. exact Hin'.
 Qed.
 
-(* the natural join pairs the shared columns BY POSITION (self's order against
-   other's order): when the two tables list them in a different order it does
-   not compare the same-named columns *)
-Definition nj_self : table :=
-  mkT [[97]; [98]; [112]] [[CI 1; CI 2]; [CI 2; CI 1]; [CS [120]; CS [121]]] 2.
-Definition nj_other : table :=
-  mkT [[98]; [97]; [113]] [[CI 2; CI 1]; [CI 1; CI 2]; [CS [117]; CS [118]]] 2.
-
-Theorem natural_join_by_position_refuted :
-  wf nj_self /\ wf nj_other /\
-  exists t, joined nj_self nj_other None None true right_ = Ok t /\
-    let ks := filter (fun c => mem_str c (hdr nj_other)) (hdr nj_self) in
-    rows t <> spec_inner_join (hdr nj_self) (rows nj_self) (hdr nj_other) (rows nj_other) ks ks.
+(* the natural join is the join on the same-named columns, whatever their order in other *)
+Theorem natural_join_same_named : forall self other prefix,
+  wf self -> wf other -> hdr self <> [] ->
+  let ks := filter (fun c => mem_str c (hdr other)) (hdr self) in
+  ks <> [] ->
+  NoDup (spec_join_header (hdr self) (hdr other) ks prefix) ->
+  exists t,
+    joined self other None None true prefix = Ok t /\ wf t /\
+    hdr t = spec_join_header (hdr self) (hdr other) ks prefix /\
+    rows t = spec_inner_join (hdr self) (rows self) (hdr other) (rows other) ks ks.
 Proof.
-  split; [|split].
-  - unfold wf, nj_self. cbn. split; [reflexivity|]. split; [repeat constructor|].
-    constructor; [cbn; intros [H|[H|[]]]; discriminate H|].
-    constructor; [cbn; intros [H|[]]; discriminate H|]. constructor; [intros []|constructor].
-  - unfold wf, nj_other. cbn. split; [reflexivity|]. split; [repeat constructor|].
-    constructor; [cbn; intros [H|[H|[]]]; discriminate H|].
-    constructor; [cbn; intros [H|[]]; discriminate H|]. constructor; [intros []|constructor].
-  - eexists. split; [vm_compute; reflexivity|]. vm_compute. discriminate.
+  intros self other prefix Hws Hwo Hne ks Hks Hnd.
+  assert (Hndks : NoDup ks) by (apply NoDup_filter; exact (proj2 (proj2 Hws))).
+  assert (Hi1 : incl ks (hdr self)) by (intros c Hc; apply filter_In in Hc; exact (proj1 Hc)).
+  assert (Hi2 : incl ks (hdr other)) by (intros c Hc; apply filter_In in Hc; apply mem_str_In; exact (proj2 Hc)).
+  apply (joined_inner_nested_loop self other None None prefix ks ks); try assumption.
+  apply join_keys_natural.
 Qed.
+
+(* shared columns listed in a different order in the two tables *)
+Example natural_join_reordered_columns :
+  joined (mkT [[97]; [98]; [112]] [[CI 1; CI 2]; [CI 2; CI 1]; [CS [120]; CS [121]]] 2)
+         (mkT [[98]; [97]; [113]] [[CI 2; CI 1]; [CI 1; CI 2]; [CS [117]; CS [118]]] 2) None None true right_ =
+  Ok (mkT [[97]; [98]; [112]; right_ ++ [113]]
+          [[CI 1; CI 2]; [CI 2; CI 1]; [CS [120]; CS [121]]; [CS [117]; CS [118]]] 2).
+Proof. vm_compute. reflexivity. Qed.
